@@ -116,7 +116,7 @@ def cases(tier, inst):
     # --- a sub-query operand whose variable is ALREADY BOUND when the comparison runs (right of an & / | whose left
     #     side binds it, either a plain condition or another sub-query), and the reverse order
     lefts = [("cmp", "le", A(X, "q"), L(2)), ("cmp", "ne", A(X, "p"), L(1)), ("sq", sub_q(("cmp", "ge", A(X, "q"), L(1))))]
-    for c in xonly:
+    for c in xonly + [None]:            # (None: a sub-query without a condition of its own, an(entity(x)))
         for left in lefts:
             for conn in ("and", "or"):
                 for order in ("left_first", "operand_first"):
@@ -279,10 +279,11 @@ def queries_of(case):
             term = ("bound", "y", ("pform", "Item", "DB", (), (("ref", s),)))
             conds = (left,)
             n = ("Q", "an", "entity", term, conds, (VXY[0],))
-            f = ("Q", "an", "entity", Y, (("cmp", "eq", A(Y, "ref"), X), c, flat_left), vxy_decl)
+            f = ("Q", "an", "entity", Y, (("cmp", "eq", A(Y, "ref"), X),) + ((c,) if c else ()) + (flat_left,), vxy_decl)
             return n, f, RICH
         cmp_n = ("cmp", "eq", A(Y, "ref"), s) if pos == "operand" else ("cmp", "ge", A(Y, "p"), A(s, "p"))
-        cmp_f = ("and", ("cmp", "eq", A(Y, "ref"), X) if pos == "operand" else ("cmp", "ge", A(Y, "p"), A(X, "p")), c)
+        cmp_f = ("cmp", "eq", A(Y, "ref"), X) if pos == "operand" else ("cmp", "ge", A(Y, "p"), A(X, "p"))
+        cmp_f = ("and", cmp_f, c) if c else cmp_f
         pair_n = (left, cmp_n) if order == "left_first" else (cmp_n, left)
         pair_f = (flat_left, cmp_f) if order == "left_first" else (cmp_f, flat_left)
         n = ("Q", "an", "setof", (X, Y), ((conn,) + pair_n,), vxy_decl)
@@ -292,7 +293,8 @@ def queries_of(case):
         _, c, pos, tree = case
         s = ("sub", sub_q(c))
         cmp_n = ("cmp", "eq", A(Y, "ref"), s) if pos == "operand" else ("cmp", "ge", A(Y, "p"), A(s, "p"))
-        cmp_f = ("and", ("cmp", "eq", A(Y, "ref"), X) if pos == "operand" else ("cmp", "ge", A(Y, "p"), A(X, "p")), c)
+        cmp_f = ("cmp", "eq", A(Y, "ref"), X) if pos == "operand" else ("cmp", "ge", A(Y, "p"), A(X, "p"))
+        cmp_f = ("and", cmp_f, c) if c else cmp_f
 
         def inst_tree(t, leaf):
             if t == "S":
@@ -412,7 +414,7 @@ def run_case(case, inst):
         if case[0] == "bound_operand":
             # alternative semantics of the recorded finding: the sub-query operand restricts its variable for the whole
             # disjunction, not only for the comparison it is an operand of
-            restricted = [tuple(ref.value(s, env) for s in sel) for env in sols if ref.holds(case[1], env)]
+            restricted = [tuple(ref.value(s, env) for s in sel) for env in sols if case[1] is None or ref.holds(case[1], env)]
         return got, flat, exp, total, restricted
 
     got, flat, exp, total, restricted = run_isolated(body)
